@@ -114,6 +114,17 @@ pub fn cases() -> Vec<Case> {
     for (prog, lenient) in [("min()", false), ("max()", false), ("sum()", true), ("mul()", true), ("AND []", true), ("OR []", true), ("min(x)", false), ("sum(x)", false), ("AND [x]", false), ("AND x", false), ("OR x", false)] {
         out.push(Case { program: prog.into(), bindings: vec![], key: format!("aggregate:{}", prog.replace(' ', "")), lenient_err: lenient });
     }
+    // aggregates: a zero or vanishing running product / sum must not hide an ill-typed later argument
+    let agg = [d("0"), d("0.0000000000000000000000000001"), d("2"), Value::Number(Decimal::MAX), Value::Bool(true), Value::String("x".into()), Value::List(vec![]), Value::None];
+    for f in ["sum", "mul", "min", "max"] {
+        for a in &agg {
+            for b in &agg {
+                for c in &agg {
+                    out.push(Case { program: format!("{}(a, b, c)", f), bindings: bind(&["a", "b", "c"], &[a, b, c]), key: format!("{}:{}:{}:{}", f, class(a), class(b), class(c)), lenient_err: false });
+                }
+            }
+        }
+    }
     // every operator x every wrongly (and rightly) typed operand pair
     let v = alphabet();
     for op in ALL_INFIX {
